@@ -36,6 +36,8 @@ class P:
 
     @property
     def intent(self):
+        if self.kind == "clsptr":
+            return "inout"          # a non-const class pointer is intent(inout) by default
         if self.kind.endswith("_out"):
             return "out"
         if self.kind.endswith("_inout"):
@@ -61,6 +63,8 @@ class P:
             s = "%sColor %s" % ("enum " if language == "c" else "", n)
         elif k == "cls":
             s = "const %s &%s" % (self.cls, n)
+        elif k == "clsptr":
+            s = "%s *%s" % (self.cls, n)
         elif k in ("int_out", "double_out"):
             s = "%s *%s +intent(out)" % (self.base(), n)
         elif k in ("int_inout", "double_inout"):
@@ -86,6 +90,8 @@ class P:
             s = "%sColor %s" % ("enum " if language == "c" else "", n)
         elif k == "cls":
             s = "const %s &%s" % (self.cls, n)
+        elif k == "clsptr":
+            s = "%s *%s" % (self.cls, n)
         elif k in ("int_out", "double_out", "int_inout", "double_inout"):
             s = "%s *%s" % (self.base(), n)
         elif k == "string_out":
@@ -156,7 +162,7 @@ def trace_value(kind, v):
         return "1" if v else "0"
     if b in ("cstr", "string"):
         return v
-    if b == "cls":
+    if b in ("cls", "clsptr"):
         return "%d" % v          # the instance's flag
     raise AssertionError(kind)
 
@@ -167,6 +173,9 @@ def _trace_stmt(f, language):
         if p.intent == "out":
             continue
         b = p.base()
+        if b == "clsptr":
+            fmts.append("%d"); args.append(p.name + "->flag")
+            continue
         deref = "*" if p.intent == "inout" else ""
         if b in INTLIKE:
             fmts.append("%ld"); args.append("(long)%s%s" % (deref, p.name))
@@ -191,6 +200,8 @@ def _trace_stmt(f, language):
 def _body(f, language):
     lines = [_trace_stmt(f, language)]
     for idx, p in enumerate(f.params):
+        if p.kind == "clsptr":
+            continue
         if p.intent == "inout":
             lines.append("*%s = *%s + 1;" % (p.name, p.name))
         elif p.intent == "out":
@@ -368,6 +379,7 @@ def fixed_cxx(name):
         F("rs", "string", [P("cstr", "s")]),
         F("many", "long", [P("short", "a"), P("uint", "b"), P("float", "c"), P("size_t", "d")]),
         F("usecls", "int", [P("cls", "c", cls=C), P("int", "i")]),
+        F("useptr", "int", [P("clsptr", "c", cls=C), P("int", "i")]),
         F("outmid", "int", [P("int", "i"), P("double_out", "o"), P("int", "j", default=30), P("long", "k", default=40)]),
         F("nothing", "void", []),
     ]
